@@ -37,6 +37,8 @@ pub struct Ctx {
     pub tdigest_sum: AtomicU64,
     pub tdigest_n: AtomicU64,
     pub transcript: Option<Mutex<std::io::BufWriter<std::fs::File>>>,
+    /// hashes of the distinct cases driven (for `distinct_nontrivial` of the enumeration explorers)
+    pub distinct: Mutex<std::collections::HashSet<u64>>,
     pub notes: Mutex<Vec<String>>,
     pub bounds: Mutex<BTreeMap<String, Value>>,
     pub exhaustive: Mutex<Option<bool>>,
@@ -65,6 +67,7 @@ impl Ctx {
                     std::fs::File::create(p).expect("transcript file"),
                 ))
             }),
+            distinct: Mutex::new(std::collections::HashSet::new()),
             notes: Mutex::new(Vec::new()),
             bounds: Mutex::new(BTreeMap::new()),
             exhaustive: Mutex::new(None),
@@ -88,6 +91,16 @@ impl Ctx {
     }
     pub fn nontriv(&self, n: u64) {
         self.nontrivial.fetch_add(n, Ordering::Relaxed);
+    }
+    /// Register one driven case by a key that identifies it; `distinct_nontrivial` counts the
+    /// distinct keys.
+    pub fn case(&self, key: &str) {
+        let mut h = Sha512::new();
+        h.update(key.as_bytes());
+        let d = h.finalize();
+        let mut w = [0u8; 8];
+        w.copy_from_slice(&d[..8]);
+        self.distinct.lock().unwrap().insert(u64::from_le_bytes(w));
     }
     pub fn bound(&self, name: &str, v: Value) {
         self.bounds.lock().unwrap().insert(name.to_string(), v);
@@ -140,6 +153,7 @@ impl Ctx {
         let d = h.finalize();
         let mut w = [0u8; 8];
         w.copy_from_slice(&d[..8]);
+        self.evaluations.fetch_add(1, Ordering::Relaxed);
         if key.starts_with("T:") {
             self.tdigest_sum.fetch_add(u64::from_le_bytes(w), Ordering::Relaxed);
             self.tdigest_n.fetch_add(1, Ordering::Relaxed);
@@ -147,6 +161,7 @@ impl Ctx {
             self.digest_sum.fetch_add(u64::from_le_bytes(w), Ordering::Relaxed);
             self.digest_n.fetch_add(1, Ordering::Relaxed);
         }
+        self.distinct.lock().unwrap().insert(u64::from_le_bytes(w));
         if let Some(t) = &self.transcript {
             let mut t = t.lock().unwrap();
             let _ = writeln!(t, "{}\t{}", key, crate::model::nat::hex(reply));
@@ -164,7 +179,7 @@ impl Ctx {
             "evaluations": self.evaluations.load(Ordering::Relaxed),
             "states": self.states.load(Ordering::Relaxed),
             "transitions": self.transitions.load(Ordering::Relaxed),
-            "distinct_nontrivial": self.nontrivial.load(Ordering::Relaxed),
+            "distinct_nontrivial": self.nontrivial.load(Ordering::Relaxed) + self.distinct.lock().unwrap().len() as u64,
             "counters": *self.counters.lock().unwrap(),
             "bounds": *self.bounds.lock().unwrap(),
             "samples": *self.samples.lock().unwrap(),
